@@ -304,10 +304,17 @@ static struct relclk *rc_get (uintptr_t a, int create) {
 	if (nrc >= RCN) die ("release-clock table full");
 	memset (&rc[nrc], 0, sizeof rc[nrc]); rc[nrc].addr = a; return &rc[nrc++];
 }
-static void race (void *pc, void *opc, const char *kind, int other, const void *a) {
+/* text range of the harness objects (for --hb-scope=cut: races between two accesses of the harness' own client
+   data are not nsync's business and are not reported; the race pass of the property checks uses it, C03 does not) */
+extern char __start_t_harness[] __attribute__((weak)), __stop_t_harness[] __attribute__((weak));
+static inline int pc_in_harness (void *pc) { return __start_t_harness && (char *)pc >= __start_t_harness && (char *)pc < __stop_t_harness; }
+static int opt_hb_cut;
+static int race (void *pc, void *opc, const char *kind, int other, const void *a) {
 	char nb[64];
+	if (opt_hb_cut && pc_in_harness (pc) && (opc == NULL || pc_in_harness (opc))) return 0;
 	viol_pc[1] = opc;
 	violation (pc, "data race (declared memory orders give no happens-before): %s by T%d vs T%d on %s", kind, cur, other, addr_name (a, nb, sizeof nb));
+	return 1;
 }
 /* kind: 0 plain read, 1 plain write, 2 atomic read, 3 atomic write */
 static void hb_access (const void *p, size_t n, int kind, void *pc) {
@@ -318,14 +325,14 @@ static void hb_access (const void *p, size_t n, int kind, void *pc) {
 		struct shadow *s = sh_get (a);
 		/* any access conflicts with an unordered plain write */
 		if (s->wtid >= 0 && s->wtid != cur && s->wclk > f->vc[s->wtid]) {
-			race (pc, s->wpc, kind == 0 ? "read after write" : kind == 1 ? "write after write" : kind == 2 ? "atomic load after plain write" : "atomic store after plain write", s->wtid, (void *)a); return;
+			if (race (pc, s->wpc, kind == 0 ? "read after write" : kind == 1 ? "write after write" : kind == 2 ? "atomic load after plain write" : "atomic store after plain write", s->wtid, (void *)a)) return;
 		}
 		if (kind == 1 || kind == 3)
-			for (int r = 0; r < nfib; r++) if (r != cur && s->rclk[r] > f->vc[r]) { race (pc, s->rpc[r], kind == 1 ? "write after read" : "atomic store after plain read", r, (void *)a); return; }
+			for (int r = 0; r < nfib; r++) if (r != cur && s->rclk[r] > f->vc[r]) { if (race (pc, s->rpc[r], kind == 1 ? "write after read" : "atomic store after plain read", r, (void *)a)) return; }
 		if (kind == 0 || kind == 1)
-			for (int r = 0; r < nfib; r++) if (r != cur && s->awclk[r] > f->vc[r]) { race (pc, NULL, kind == 0 ? "plain read after atomic store" : "plain write after atomic store", r, (void *)a); return; }
+			for (int r = 0; r < nfib; r++) if (r != cur && s->awclk[r] > f->vc[r]) { if (race (pc, NULL, kind == 0 ? "plain read after atomic store" : "plain write after atomic store", r, (void *)a)) return; }
 		if (kind == 1)
-			for (int r = 0; r < nfib; r++) if (r != cur && s->arclk[r] > f->vc[r]) { race (pc, NULL, "plain write after atomic load", r, (void *)a); return; }
+			for (int r = 0; r < nfib; r++) if (r != cur && s->arclk[r] > f->vc[r]) { if (race (pc, NULL, "plain write after atomic load", r, (void *)a)) return; }
 		switch (kind) {
 		case 0: s->rclk[cur] = f->vc[cur]; s->rpc[cur] = pc; break;
 		case 1: s->wtid = cur; s->wclk = f->vc[cur]; s->wpc = pc; break;
@@ -1100,6 +1107,7 @@ int main (int argc, char **argv) {
 		else if (!strcmp (a, "--nohash")) opt_nohash = 1;
 		else if (!strcmp (a, "--hb")) { opt_hb = 1; opt_nohash = 1; }
 		else if (!strcmp (a, "--sem-hb=off")) opt_semhb = 0;
+		else if (!strcmp (a, "--hb-scope=cut")) opt_hb_cut = 1;
 		else if (!strcmp (a, "--verbose")) opt_verbose = 1;
 		else if (!strcmp (a, "--strict")) opt_strict = 1;
 		else if (!strcmp (a, "--sample")) want_sample = 1;
